@@ -996,7 +996,27 @@ pub fn plans_for(prop: &str, thorough: bool) -> Vec<Plan> {
                 oracles: O_IGN,
                 u_cap: 400,
             });
+            plans.push(Plan {
+                name: "require groups inside ignore regions that span several groups x sort_requires",
+                cases: gen::f_ign_requires(),
+                cfgs: cross(false, |b| vec![Cfg { sort: true, ..b }, b]),
+                widths: Widths::Classes,
+                ranges: Ranges::None,
+                oracles: O_IGN,
+                u_cap: 400,
+            });
+            // an ignored statement stays verbatim also when a formatting range lies inside it
+            plans.push(Plan {
+                name: "ignored compound statements x every pair of range points",
+                cases: gen::f_ign_compound(),
+                cfgs: cross(false, |b| vec![b]),
+                widths: Widths::Wide,
+                ranges: Ranges::TokenPoints,
+                oracles: O_IGN,
+                u_cap: 400,
+            });
         }
+        "C08r" => {}
         "C09" => {
             let mut cases = gen::f_seq(if thorough { 3 } else { 2 }, false);
             if !thorough {
@@ -1026,15 +1046,14 @@ pub fn plans_for(prop: &str, thorough: bool) -> Vec<Plan> {
         "C10" => {
             let mut bases: Vec<Case> = stmt.clone();
             bases.extend(stmt_long.clone());
-            let tri = trivia_family(&only_dials(stmt.clone(), &[Dial::Core]), if thorough { &[0, 1, 3, 5, 6] } else { &[3, 5] });
+            let tri = trivia_family(&only_dials(stmt.clone(), &[Dial::Core]), if thorough { &[0, 1, 3, 5, 6] } else { &[0, 3, 5] });
             let mut ws: Vec<Case> = gen::f_ws_files();
             for b in bases.iter() {
                 ws.extend(gen::ws_variants(b, thorough));
             }
-            for (i, b) in tri.iter().enumerate() {
-                if thorough || i % 5 == 0 {
-                    ws.extend(gen::ws_variants(b, false).into_iter().take(if thorough { 20 } else { 2 }));
-                }
+            for b in tri.iter() {
+                // quick tier: the whole-file CRLF rendering of every single-comment program; thorough: every rendering
+                ws.extend(gen::ws_variants(b, false).into_iter().take(if thorough { 20 } else { 1 }));
             }
             let opts = move |b: Cfg| {
                 let mut v = vec![];
